@@ -17,7 +17,7 @@ prop("C01",
      lean_modules=["Galaxy.Props.C01", "Galaxy.Lemmas.PluginCrash", "Galaxy.Lemmas.PluginReserved"],
      factgen=["plugin"],
      drivers=["plugin"],
-     trusted=["tools/factgen/cmd/plugin: syntactic extraction", "harness/plugin: fake clientsets, decorator, controlled listers (see C04)"],
+     trusted=["tools/factgen/cmd/plugin: facts matched on normalised traces (see C04; no type checking, no aliasing analysis)", "harness/plugin: fake clientsets, decorator, controlled listers (see C04)"],
      assumptions=["structured keys: injectivity of the rendered key string is C11's theorem",
                   "pools pairwise disjoint with distinct gateways; per-pod operations atomic (fact: lockPod)"],
      timeout={"quick": 900, "thorough": 3600},
